@@ -32,7 +32,7 @@ ASSUMPTIONS = ['time steps satisfy h*Lambda <= 1 (Lambda = largest |Hessian eige
                'higher-order terms are below 20% of the leading one at the largest step; other cases are counted as exempt',
                'oracle shares numpy/scipy (LAPACK, expm) with the code under test']
 
-CONFIG = {'quick': dict(shards=8, seeds=1, timeout=600), 'thorough': dict(shards=16, seeds=3, timeout=2400)}
+CONFIG = {'quick': dict(shards=8, seeds=1, timeout=600), 'thorough': dict(shards=16, seeds=3, timeout=3600)}
 
 EPS = np.finfo(float).eps
 BOX = ((-1.3, 1.3), (-1.0, 1.0))
@@ -739,7 +739,7 @@ def run(ctx):
     import time
     for name, fn, nq, nt in (('integrators', run_integrators, 768, 19200), ('slopes', run_slopes, 288, 5760),
                              ('gradients', run_gradients, 360, 7200), ('steps', run_steps, 96, 1920),
-                             ('climbpoints', run_climbpoints, 24, 240), ('relax', run_relaxations, 84, 672)):
+                             ('climbpoints', run_climbpoints, 24, 240), ('relax', run_relaxations, 84, 504)):
         t0 = time.process_time()
         fn(ctx, mep, ctx.pick(nq, nt))
         rec.count('cpu_ms:' + name, int(1000 * (time.process_time() - t0)))
